@@ -13,7 +13,7 @@ import (
 	"verifharness/core"
 )
 
-func init() { Registry["C06"] = RunC06 }
+func init() { RegisterSub("C06", "synthetic", RunC06) }
 
 // synthetic page: nil values = null page; bounds may be widened (as truncation does)
 type c06Page struct {
